@@ -233,7 +233,9 @@ pub fn run(ctx: &mut Ctx) {
 }
 
 fn random_time(r: &mut Rng) -> f64 {
-    match r.below(8) {
+    match r.below(9) {
+        // distinct times closer than any tolerance (they exist only below magnitude 1): still different times
+        8 => *r.pick(&[0.3, 0.1 + 0.2, 5e-324, 1e-17, f64::MIN_POSITIVE, 0.5, 0.500_000_000_000_000_1, -1e-300, 0.299_999_999_999_999_93]),
         0 => 0.0,
         1 => -0.0,
         2 => r.range(-5, 5) as f64,
